@@ -37,12 +37,12 @@ func registerExtras() {
 	propertyRules["C08"] = append(propertyRules["C08"], ruleVerifyKey)
 	// the quorum is only as good as its uses: every progress decision compares its count with M in normal form (a site
 	// that spells its own threshold, e.g. 2F, is a different quorum for N != 3F+1) — seed C06r3-3
-	propertyRules["C06"] = append(propertyRules["C06"], ruleAccept, rulePreAccept, ruleCommitQuorum, ruleViewQuorum, ruleResponderWindow, ruleDefs)
+	propertyRules["C06"] = append(propertyRules["C06"], ruleAccept, rulePreAccept, ruleCommitQuorum, ruleViewQuorum, ruleResponderWindow, ruleDefs, ruleRecoveryReplay)
 	propertyRules["C01"] = append(propertyRules["C01"], ruleCommitQuorum, ruleVerifyWindow)
 	propertyRules["C02"] = append(propertyRules["C02"], ruleVerifyWindow)
 	propertyRules["C08"] = append(propertyRules["C08"], ruleVerifyWindow)
 	propertyRules["C08"] = append(propertyRules["C08"], rulePhaseProgress, ruleNoIdleCV, ruleForce)
-	propertyRules["C09"] = append(propertyRules["C09"], rulePhaseProgress)
+	propertyRules["C09"] = append(propertyRules["C09"], rulePhaseProgress, ruleViewResetCover)
 	propertyRules["C07"] = append(propertyRules["C07"], rulePhaseProgress)
 	// the example runs watch-only nodes and a blocked validator in one process: a panic of the library on a watch-only
 	// node (index -1) or a payload broadcast by it stops / disturbs the whole simulation — seed C17r3-3
